@@ -68,6 +68,10 @@ ICTV_RANKS = (
     "name",
 )
 
+# Summarized fractions are float sums of k_i/N: rounding can move a sum that is exactly 1
+# (or a remainder that is exactly 0) by a few ulp.  Comparisons against 1 and 0 allow for it.
+FLOAT_TOLERANCE = 1e-9
+
 NCBI_RANKS = (
     "superkingdom",
     "phylum",
@@ -2042,10 +2046,18 @@ class SummarizedGatherResult:
         self.check_values()
 
     def check_values(self):
-        if any([self.fraction > 1, self.f_weighted_at_rank > 1]):
+        if any(
+            [
+                self.fraction > 1 + FLOAT_TOLERANCE,
+                self.f_weighted_at_rank > 1 + FLOAT_TOLERANCE,
+            ]
+        ):
             raise ValueError(
                 "Summarized fraction is > 100% of the query! This should not be possible. Please check that your input files come directly from a single gather run per query."
             )
+        # remove float rounding noise above 100%
+        self.fraction = min(self.fraction, 1.0)
+        self.f_weighted_at_rank = min(self.f_weighted_at_rank, 1.0)
         # is this true for weighted too, or is that set to 0 when --ignore-abundance is used?
         if any(
             [self.fraction <= 0, self.f_weighted_at_rank <= 0]
@@ -2431,7 +2443,7 @@ class QueryTaxResult:
                 lineage = RankLineageInfo()
             query_ani = None
             f_unique = 1.0 - self.total_f_classified[rank]
-            if f_unique > 0:
+            if f_unique > FLOAT_TOLERANCE:
                 f_weighted_at_rank = 1.0 - self.total_f_weighted[rank]
                 bp_intersect_at_rank = (
                     self.query_info.query_bp - self.total_bp_classified[rank]
